@@ -613,7 +613,10 @@ impl<T: Send> AsyncReceiver<T> {
   }
 
   /// Zero-cost conversion into a sync [`Receiver`].
-  pub fn to_sync(self) -> Receiver<T> {
+  pub fn to_sync(mut self) -> Receiver<T> {
+    if let Some(id) = self.stream_id.take() {
+      self.shared.cancel_recv(id);
+    }
     let shared = unsafe { std::ptr::read(&self.shared) };
     let closed = self.closed.load(Ordering::Relaxed);
     mem::forget(self);
@@ -638,7 +641,8 @@ impl<T: Send> Clone for AsyncReceiver<T> {
 impl<T: Send> Drop for AsyncReceiver<T> {
   fn drop(&mut self) {
     if let Some(id) = self.stream_id.take() {
-      self.shared.unregister_recv(id);
+      // a Stream registration that was already woken hands its wake on
+      self.shared.cancel_recv(id);
     }
     let _ = self.close();
   }
